@@ -86,7 +86,9 @@ class Planter:
         return f"~S{self.n:02d}~"
 
 
-KEYS = ["a", "b", "items", "user", "email", "n", "attrs", "token", "x", "é", "x-api-key", "__Host-sid", "a b", "k:1", "u@h", "p/q", "0", "-1"]
+KEYS = ["a", "b", "items", "user", "email", "n", "attrs", "token", "x", "é", "x-api-key", "__Host-sid", "a b", "k:1", "u@h", "p/q", "0", "-1",
+        # keys that differ in case only are different keys (a path names exactly one of them, whichever was inserted first)
+        "A", "Token", "TOKEN", "É", "Items"]
 TEXTS = ["", "x", "bob", "пароль", "日本語", "é" * 3, "a b", "10.0.0.1", "\U0001f511 key", "q\"uote", "tab\t"]
 
 
@@ -128,6 +130,10 @@ def gen_env(r: random.Random, pl: Planter) -> dict:
     ctx: dict[str, Any] = {}
     if r.random() < 0.7:
         ctx["headers"] = {"authorization": "Bearer " + pl.fresh(), "accept": "*/*"} if r.random() < 0.8 else "raw " + pl.fresh()
+        if isinstance(ctx["headers"], dict) and r.random() < 0.4:
+            # the same header under another capitalisation next to it, before or after
+            other = {r.choice(["Authorization", "AUTHORIZATION"]): "Bearer " + pl.fresh()}
+            ctx["headers"] = {**other, **ctx["headers"]} if r.random() < 0.5 else {**ctx["headers"], **other}
     if r.random() < 0.5:
         ctx["cookies"] = {"sid": pl.fresh()} if r.random() < 0.7 else [pl.fresh()]
     if r.random() < 0.6:
@@ -929,6 +935,66 @@ def run_cases(run: lib.Run, defaults: list, scale: int = 1, keep: list | None = 
     flush()
 
 
+def overlapping_records(run: lib.Run) -> None:
+    """two threads report to ONE DecisionLogger at the same time: the first call is parked inside the logging machinery (a filter on
+    the audit logger) while the second runs to completion.  At rate 1 — and for a deny under smart sampling — BOTH records are emitted,
+    each redacted; neither call raises."""
+    import threading
+
+    class Gate(logging.Filter):
+        def __init__(self):
+            super().__init__()
+            self.entered, self.release = threading.Event(), threading.Event()
+
+        def filter(self, record):
+            if "first-record" in record.getMessage() and not self.release.is_set():
+                self.entered.set()
+                self.release.wait(10)
+            return True
+
+    def payload(tag, decision):
+        return {"env": {"subject": {"id": "u", "attrs": {"password": "~S77~" + tag}}, "context": {"ip": "10.0.0.1"}},
+                "decision": decision, "allowed": decision == "permit", "rule_id": tag, "policy_id": "p", "reason": None, "obligations": []}
+    for kwargs, decision in (({"sample_rate": 1.0}, "permit"), ({"sample_rate": 1.0, "as_json": True}, "permit"),
+                             ({"sample_rate": 0.0, "smart_sampling": True}, "deny")):
+        lg = dl.DecisionLogger(redactions=[{"type": "mask_fields", "fields": ["subject.attrs.password"]}], **kwargs)
+        gate = Gate()
+        errors: list = []
+        with audit_capture() as cap:
+            alog = logging.getLogger("rbacx.audit")
+            alog.addFilter(gate)
+            try:
+                def first():
+                    try:
+                        lg.log(payload("first-record", decision))
+                    except Exception as e:  # noqa: BLE001
+                        errors.append(f"first: {type(e).__name__}: {e}")
+                t = threading.Thread(target=first, daemon=True)
+                t.start()
+                if gate.entered.wait(10):
+                    try:
+                        lg.log(payload("second-record", decision))
+                    except Exception as e:  # noqa: BLE001
+                        errors.append(f"second: {type(e).__name__}: {e}")
+                else:
+                    errors.append("the first record never reached the audit logger")
+                gate.release.set()
+                t.join(10)
+            finally:
+                gate.release.set()
+                alog.removeFilter(gate)
+            msgs = [r.getMessage() for r in cap.records]
+        run.evaluations += 1
+        run.count("overlapping-records")
+        seen = {tag: sum(1 for m in msgs if tag in m) for tag in ("first-record", "second-record")}
+        leak = any("~S77~" in m for m in msgs)
+        if errors or seen != {"first-record": 1, "second-record": 1} or leak:
+            run.spec_failures.append({"part": "overlapping records", "logger": kwargs, "decision": decision, "records_emitted": seen, "errors": errors,
+                                      "secret_in_a_record": leak,
+                                      "failures": ["two decisions reported to one logger at the same time were not both emitted exactly once, redacted"]})
+            return
+
+
 def check(run: lib.Run, audit: dict) -> int:
     run.rule = ("exhaustive: int() literals of length ≤4/≤5 over 10 characters; every path of ≤2 (thorough ≤3) segments over a "
                 "16-segment alphabet (keys, indices in/out of range, negative, garbage) × 16 objects through _set_by_path; every "
@@ -954,6 +1020,7 @@ def check(run: lib.Run, audit: dict) -> int:
     run.extra["default_redactions_read_from_module"] = defaults
     keep: list[dict] = []
     run_cases(run, defaults, keep=keep)
+    overlapping_records(run)
     if run.disagreements and not run.spec_failures:
         run_cases(run, defaults, scale=5)   # correspondence broke: widen the search for a failing input
     try:
@@ -961,8 +1028,12 @@ def check(run: lib.Run, audit: dict) -> int:
     except Exception as e:  # noqa: BLE001
         run.notes.append(f"coverage measurement failed: {e}")
     violations = []
-    if run.spec_failures:
-        first = run.spec_failures[0]
+    if run.spec_failures and all(f.get("part") == "overlapping records" for f in run.spec_failures):
+        path = run.write_replay("spec", {"what": "two decisions reported to one DecisionLogger at the same time", "failures": run.spec_failures[0]["failures"],
+                                         "case": run.spec_failures[0]})
+        violations.append((path, True))
+    elif run.spec_failures:
+        first = next(f for f in run.spec_failures if f.get("part") != "overlapping records")
         small = shrink(first["case"], defaults)
         (_, out, ans), = evaluate([small], defaults)
         _, fails, _, _ = judge(small, out, ans)
@@ -984,6 +1055,12 @@ def check(run: lib.Run, audit: dict) -> int:
 def replay(run: lib.Run, audit: dict, path: str) -> int:
     rp = json.load(open(path))
     c = rp.get("case") or rp["first"]["case"]
+    if c.get("part") == "overlapping records":
+        overlapping_records(run)
+        now = [f for f in run.spec_failures if f.get("part") == "overlapping records"]
+        print("now:", json.dumps(now[0], default=str) if now else "both records are emitted, once each, redacted")
+        print("recorded:", json.dumps(c, default=str))
+        return 1 if now else 0
     defaults = copy.deepcopy(dl._DEFAULT_REDACTIONS)
     (_, out, ans), = evaluate([c], defaults)
     dis, fails, cls, _ = judge(c, out, ans)
